@@ -1014,9 +1014,15 @@ class Body:
                     name = decl[-1].t
                     byref = any(x.t == '&' for x in decl)
                     rf = ctx['fn'].get('rangefor', {})
-                    if name not in rf:
-                        raise ExtractionBreak('R9: no element type binding for range-for variable %s in %s' % (name, ctx['fn']['cname']))
-                    ety = rf[name]
+                    if name in rf:
+                        ety = rf[name]
+                    elif n_rf < len(rf) and list(rf.keys())[n_rf] not in [x.t for x in toks if x.k == 'id']:
+                        # the n-th binding's variable no longer occurs in the body: the loop variable was renamed -- bindings are positional then
+                        ety = list(rf.values())[n_rf]
+                    else:
+                        # R9typeof: unbound range-for variable -- element type taken from the container expression itself
+                        ety = '__typeof__(@@ELEM(%s, 0))' % coll
+                        self.fire('R9typeof')
                     idx = 'op2_i%d' % n_rf
                     n_rf += 1
                     body_s = next_sig(toks, e)
